@@ -59,8 +59,9 @@ class HandlerSubs:
 
     @staticmethod
     def compare(lines, m, i):
-        # over kuksa.val.v1 a datapoint without a value is absent (and its timestamp with it)
-        return H.canon_messages(m) == H.canon_messages(i)
+        # over kuksa.val.v1 a datapoint without a value is absent (and its timestamp with it); which of several
+        # failing entries of one v1 Subscribe is reported is not determined
+        return H.same_handler_subs(lines, m, i)
 
     monitor = staticmethod(monitor)
     pretty = staticmethod(pretty)
